@@ -66,7 +66,10 @@ def strategy(tier, shard):
                     async_=draw(st.booleans()), # (first calls of 9..11 sweeps put retained steps on both sides of 10: "latest" must be numeric, not lexicographic)
                     calls=[draw(st.sampled_from([1, 2, 3, 4, 5, 6, 7, 9, 10, 11]))] + ([draw(st.integers(1, 5))] if draw(st.booleans()) else []),
                     step_choice=draw(st.sampled_from(["latest", "latest", 0, 1, 2])), route=route, overrides=ov,
-                    later=draw(st.sampled_from([0, 3, 4, 6])),
+                    # (a restore() whose frequency / retention override is non-trivial always solves further, so that the override
+                    # can show on disk)
+                    later=draw(st.sampled_from([3, 4, 6] if route == "restore" and (ov["keep"] is not None or ov["frequency"] not in (None, 0))
+                                               else [0, 3, 4, 6])),
                     errpath=draw(st.sampled_from([None, None, None, None, "no_config", "no_steps"])),
                     # the directory may have been copied (and the original has moved on) or moved before it is restored
                     relocate=draw(st.sampled_from([None, None, None, "move", "copy-diverged"])))
